@@ -31,6 +31,9 @@ enum Mode {
     RegErr,
     /// the receiver-side socket is closed: sends fail with ECONNREFUSED
     SendFails,
+    /// a flapping path: it delivers until the link is connected again, then goes dark at once
+    /// (before any keepalive echo or ACK reaches the re-registered link)
+    Flap,
 }
 
 #[derive(Clone, Copy, Debug, PartialEq)]
@@ -63,6 +66,8 @@ pub struct St {
     next_seq: u32,
     /// receiver-side registered links (it only echoes / acks links it knows)
     rec_known: Vec<bool>,
+    /// the harness's own liveness clock: when it last handed link l a datagram
+    last_delivered: Vec<u64>,
 }
 
 pub struct M {
@@ -84,6 +89,7 @@ impl M {
             if level >= 1 {
                 events.push(Ev::Fault(i, Mode::HandshakeLost));
                 events.push(Ev::Fault(i, Mode::RegErr));
+                events.push(Ev::Fault(i, Mode::Flap));
             }
         }
         if level >= 1 {
@@ -99,11 +105,19 @@ impl M {
             // reduced alphabet for the long back-off horizon
             events = vec![Ev::SecIdle, Ev::Sec, Ev::Fault(1, Mode::BlackHole), Ev::BindFails(1), Ev::BindOk(1), Ev::Repair(1)];
         }
+        if level == 4 {
+            // reduced alphabet for long outages followed by a repair (or a flap)
+            events = vec![Ev::SecIdle, Ev::Sec, Ev::Fault(1, Mode::BlackHole), Ev::Repair(1), Ev::Fault(1, Mode::Flap)];
+        }
         let name = format!(
             "links={n} timeout={timeout} mode={} alphabet={}{}",
             if classic { "classic" } else { "enhanced" },
             events.len(),
-            if level == 3 { " (back-off horizon)" } else { "" }
+            match level {
+                3 => " (back-off horizon)",
+                4 => " (long outage horizon)",
+                _ => "",
+            }
         );
         Self { n, timeout, classic, events, name, level }
     }
@@ -135,6 +149,7 @@ impl M {
             })
             .collect();
         let pre_established: Vec<bool> = s.w.connections.iter().map(|c| c.reconnection.connection_established_ms != 0).collect();
+        let pre_may_retry: Vec<bool> = s.w.connections.iter().map(|c| c.reconnection.should_attempt_reconnect(now)).collect();
         let out = s.w.arm_housekeeping(env);
         let mut reg_err_sent = vec![false; n];
         for l in 0..n {
@@ -159,6 +174,18 @@ impl M {
                     ));
                 }
                 s.mon[l].detected_down = true;
+            }
+            // clause 1b: detection. The harness's own clock says nothing was handed to this connected link
+            // for the configured timeout, and the link's back-off predicate allowed a retry: this pass
+            // must have torn it down.
+            if pre[l].0 && c.connected && pre_may_retry[l] && now.saturating_sub(s.last_delivered[l]) >= timeout {
+                return Err(Fail::new(
+                    "silent-link-not-torn-down",
+                    ctx(&format!(
+                        "nothing was delivered to the link for {} ms (harness clock) and a retry was allowed, yet housekeeping left it connected",
+                        now - s.last_delivered[l]
+                    )),
+                ));
             }
             // clause 2: retry spacing
             let att = c.reconnection.last_reconnect_attempt_ms;
@@ -224,6 +251,7 @@ impl M {
         let pre_conn: Vec<bool> = s.w.connections.iter().map(|c| c.connected).collect();
         let mut follow: Vec<(usize, Vec<u8>)> = Vec::new();
         for (l, b) in &replies {
+            s.last_delivered[*l] = s.w.now;
             let o = s.w.arm_uplink(env, *l, b);
             // an immediate REG1 (answer to REG_NGP) is answered in the same exchange
             for (l2, b2) in &o.wire {
@@ -235,6 +263,7 @@ impl M {
             }
         }
         for (l, b) in &follow {
+            s.last_delivered[*l] = s.w.now;
             s.w.arm_uplink(env, *l, b);
         }
         // clause 3a: clean rejoin at the step a link connects; clause 1 for REG_ERR
@@ -254,6 +283,11 @@ impl M {
                     "disconnected-by-an-inbound-datagram",
                     format!("link {l} lost its connected flag while receiver replies were processed, without a REG_ERR"),
                 ));
+            }
+        }
+        for l in 0..n {
+            if s.mode[l] == Mode::Flap && s.w.connections[l].connected && !pre_conn[l] {
+                s.mode[l] = Mode::BlackHole;
             }
         }
         // ---- client traffic + ACKs
@@ -320,6 +354,7 @@ impl M {
                 for q in &seen[l] {
                     let mut p = vec![0x91u8, 0x00, 0, 0];
                     p.extend_from_slice(&q.to_be_bytes());
+                    s.last_delivered[l] = s.w.now;
                     s.w.arm_uplink(env, l, &p);
                     top = top.max(*q);
                 }
@@ -330,6 +365,7 @@ impl M {
                     p[0] = 0x80;
                     p[1] = 0x02;
                     p[16..20].copy_from_slice(&top.to_be_bytes());
+                    s.last_delivered[l] = s.w.now;
                     s.w.arm_uplink(env, l, &p);
                 }
             }
@@ -375,6 +411,7 @@ impl Model for M {
         let mode = if self.classic { SchedulingMode::Classic } else { SchedulingMode::Enhanced };
         let cfg = DynamicConfig::from_cli(mode, false, false, 32, 3000, self.timeout);
         let (w, rec) = established(env, self.n, cfg, T0);
+        let now0 = w.now;
         St {
             w,
             rec,
@@ -382,6 +419,7 @@ impl Model for M {
             mon: vec![LinkMon { last_attempt: 0, ok_since: Some(T0), had_bind_fault: false, detected_down: false }; self.n],
             next_seq: 1000,
             rec_known: vec![true; self.n],
+            last_delivered: vec![now0; self.n],
         }
     }
     fn n_events(&self) -> usize {
@@ -483,6 +521,16 @@ fn models(tier: Tier) -> Vec<(String, Arc<M>, Vec<Plan>)> {
         out.push((m.name.clone(), m, vec![Plan::Dev { k: 2, depth: 16, default: Arc::new(move |_| sec) }]));
         let m = mk(2, 60000, false, 0);
         out.push((m.name.clone(), m, vec![Plan::Dev { k: 1, depth: 100, default: Arc::new(move |_| idle) }]));
+        // long outages, then a repair or a flap (level-4 alphabet: SecIdle is symbol 0, Sec symbol 1)
+        let m = mk(2, 5000, false, 4);
+        out.push((
+            m.name.clone(),
+            m,
+            vec![
+                Plan::Dev { k: 2, depth: 100, default: Arc::new(move |_| 0) },
+                Plan::Dev { k: 3, depth: 24, default: Arc::new(move |_| 0) },
+            ],
+        ));
     } else {
         for (timeout, classic) in [(5000u64, false), (1000, false), (15000, true), (60000, false)] {
             let m = mk(2, timeout, classic, 2);
@@ -500,6 +548,19 @@ fn models(tier: Tier) -> Vec<(String, Arc<M>, Vec<Plan>)> {
         out.push((m.name.clone(), m, vec![Plan::Dev { k: 2, depth: 30, default: Arc::new(move |_| sec) }]));
         let m = mk(4, 5000, false, 0);
         out.push((m.name.clone(), m, vec![Plan::Dev { k: 2, depth: 25, default: Arc::new(move |_| sec) }]));
+        for (timeout, classic) in [(5000u64, false), (15000, true)] {
+            let m = mk(2, timeout, classic, 4);
+            out.push((
+                m.name.clone(),
+                m,
+                vec![
+                    Plan::Dev { k: 2, depth: 150, default: Arc::new(move |_| 0) },
+                    Plan::Dev { k: 2, depth: 150, default: Arc::new(move |_| 1) },
+                    Plan::Dev { k: 3, depth: 45, default: Arc::new(move |_| 0) },
+                    Plan::Dev { k: 3, depth: 45, default: Arc::new(move |_| 1) },
+                ],
+            ));
+        }
         // across the 120 s back-off cap: socket re-creation failing
         let m = mk(2, 5000, false, 3);
         out.push((m.name.clone(), m, vec![Plan::Dev { k: 2, depth: 140, default: Arc::new(move |_| 0) }]));
@@ -576,7 +637,7 @@ pub fn run(tier: Tier) -> Report {
             let ex = engine::explore(&*m, &plan, &lim);
             engine::fold(&mut rep, &*m, &format!("{label} {}", plan.describe()), &plan, ex);
         }
-        if m.level <= 2 {
+        if m.level != 3 {
             rep.set(&format!("alphabet[{label}]"), json!((0..m.n_events()).map(|e| m.event_name(e)).collect::<Vec<_>>()));
         }
     }
@@ -584,9 +645,9 @@ pub fn run(tier: Tier) -> Report {
     rep.transitions += n;
     rep.set("backoff_predicate_calls", json!(n));
     rep.set("macro_step", json!("Sec = +1000 ms housekeeping pass; the fake receiver (group id, per-link registration) answers every REG1/REG2/keepalive it saw on links that are not faulted; 5 client datagrams + flush tick; SRTLA ACK per datagram and one cumulative SRT ACK on non-faulted, registered links. SecIdle = the same without client traffic (so no scheduling decision happens)."));
-    rep.set("oracle", json!("temporal monitor over virtual time: (1) connected falls / phase returns to Registering during housekeeping only if the link's receive age >= the timeout configured in DynamicConfig at that pass (own rule) or its sends fail; outside housekeeping only on REG_ERR; (2) consecutive reconnect attempts on one link >= 1000 ms apart before first establishment and >= 5000 ms after, and while the link is down never more than 120000 + one period apart; for every failure count the pure predicate allows a retry after a delay within [1000|5000, 120000]; (3) a link whose path and receiver have been fine for 30 s (and that never had a socket re-creation fault) is connected; at the step it connects: window 20000, in-flight 0, empty log, phase Warming; (4) no client datagram is dropped while a usable link exists, and none is carried by a link that was already known to be down"));
+    rep.set("oracle", json!("temporal monitor over virtual time: (1) connected falls / phase returns to Registering during housekeeping only if the link's receive age >= the timeout configured in DynamicConfig at that pass (own rule) or its sends fail; outside housekeeping only on REG_ERR; (1b) detection: a connected link to which the harness has delivered nothing for the configured timeout (the harness's own delivery clock, not the link's receive stamp) and whose back-off predicate allows a retry is torn down by that housekeeping pass; (2) consecutive reconnect attempts on one link >= 1000 ms apart before first establishment and >= 5000 ms after, and while the link is down never more than 120000 + one period apart; for every failure count the pure predicate allows a retry after a delay within [1000|5000, 120000]; (3) a link whose path and receiver have been fine for 30 s (and that never had a socket re-creation fault) is connected; at the step it connects: window 20000, in-flight 0, empty log, phase Warming; (4) no client datagram is dropped while a usable link exists, and none is carried by a link that was already known to be down"));
     rep.assume("'retried forever' is decided up to the explored horizon (D seconds; 140 s in the thorough back-off run) plus the pure back-off arithmetic for all failure counts; the 30 s rejoin bound assumes local socket re-creation succeeds");
-    rep.assume("the select! glue is mirrored (world.rs) and bound by a call-order + token digest fingerprint; faults: black hole, lost handshake replies, REG_ERR answers, receiver restart (group forgotten), socket send errors (receiver port closed), socket re-creation errors (UplinkBinder seam)");
+    rep.assume("the select! glue is mirrored (world.rs) and bound by a call-order + token digest fingerprint; faults: black hole, flap (the path delivers until REG3 and goes dark before any echo or ACK), lost handshake replies, REG_ERR answers, receiver restart (group forgotten), socket send errors (receiver port closed), socket re-creation errors (UplinkBinder seam)");
     rep
 }
 
